@@ -105,7 +105,7 @@ def strategy(tier):
         dec = dict(is16=draw(st.integers(0, 1)), annexb=draw(st.sampled_from([0, 0, 1])))
         if draw(st.integers(0, 9)) < 6:
             return dict(src="aom", aom=draw(aom_args(thorough)), dec=dec)
-        c, n, tp = draw(gens.cfg(max_dim=208 if thorough else 176, frames=(2, 12), allow_twopass=False, slow_p=10 if thorough else 4, lps=(2, 4), recon=0))
+        c, n, tp = draw(gens.cfg(max_dim=208 if thorough else 176, frames=(2, 12), allow_twopass=False, slow_p=10 if thorough else 4, lps=(2, 4), recon=0, exclude=("AQ1", "TPL0", "MINQ0", "2PASS")))
         if draw(st.integers(0, 7)) == 0:
             # streams longer than the 7-bit order-hint period: reference distances are computed across the wrap
             c["source_width"], c["source_height"], c["enc_mode"] = draw(st.sampled_from([(64, 64), (96, 64), (128, 128)])), 8, 8
